@@ -126,8 +126,9 @@ theorem casts_never_wrap (segs : List Nat) (t : SegType) (mfv n : Nat) (m arr : 
 
 /-- (5-pin) **Where the source casts** (tie T, target T21).  The statements of `_check_and_cast_pixel_array`,
 `_combine_segments` and `_get_segment_pixel_array` that narrow, round or scale pixel values -- regenerated from
-seg/sop.py on every run, each with the `if` tests it sits under -- are exactly the ones the model's `wrap`s,
-`quantise` and `stretch` stand for: no cast in the integer branch of `_check_and_cast_pixel_array`, the comparison
+seg/sop.py on every run, each with the `if` tests it sits under -- are the ones the model's `wrap`s, `quantise` and
+`stretch` were written against (that link is by reading; this theorem is a *change detector*: any cast added,
+removed, moved or re-conditioned makes it fail and sends the check into the failing-input search): no cast in the integer branch of `_check_and_cast_pixel_array`, the comparison
 `pixel_array == segment_number` *inside* the cast, rounding before the cast for fractions.  A cast that is added,
 removed or moved breaks this theorem. -/
 theorem cast_sites_pinned : segCastSites =
@@ -148,21 +149,27 @@ theorem cast_sites_pinned : segCastSites =
 /-- ... and a cast in front of the comparison *would* wrap: label 300 narrowed to uint8 is 44 -/
 example : wrap 8 300 = 44 ∧ (if wrap 8 300 = 300 then 1 else 0) = (0 : Nat) := by decide
 
-/-- (6) **C01_roundtrip.**  For every segmentation type (BINARY, FRACTIONAL, LABELMAP), every layout and dtype
-class of the mask (2-D/3-D label map or 4-D stack; bool/unsigned integers or floats), every
-`max_fractional_value`, either empty-frame policy (including masks that are entirely empty, and planes or single
-(segment, plane) frames that are empty), every frame size `rows*cols` (divisible by 8 or not, smaller than 8 or
-not), every plane order, and either transport (native 1/8/16 bit with the trailing pad as written, or an
-encapsulated syntax with *any* lossless codec): if the constructor accepts the input (`build … = .ok o`), then
-reading any list of source planes back -- in particular all of them in the order supplied -- succeeds and returns,
-for every requested plane `i` and every described segment `j`, exactly the property's expectation
-`expectedPlane` computed from the user's mask. -/
-theorem C01_roundtrip (codec : Option Codec) (hcodec : ∀ c, codec = some c → ∀ x, c.dec (c.enc x) = x)
+/-- The region of the open finding `C01-float-labelmap-undescribed` and of its FRACTIONAL sibling: a 3-D *float* mask
+"represents a single segment"; the library gives that meaning only when the descriptions are exactly what such a mask
+can address -- segment number 1 described for BINARY / LABELMAP, the single description `[1]` for FRACTIONAL.
+Outside, the mask is accepted but stored under an undescribed label (LABELMAP without segment 1) or copied to every
+described segment (FRACTIONAL with several descriptions): `counterexample_float_label_undescribed`,
+`counterexample_float_fraction_copied`. -/
+def FloatLabelDescribed (t : SegType) (segs : List Nat) : Mask → Prop
+  | .fltLabel _ => if t = .fractional then segs = [1] else 1 ∈ segs
+  | _ => True
+
+/-- (6-partial) Round trip *including* the region of the open finding.  There `expectedPlane` only says what the
+code does (nothing for the described segments of a LABELMAP whose float mask went to label 1; the same plane for
+every segment of a FRACTIONAL float mask) -- so as a statement of the property this is **partial** in that region;
+`C01_roundtrip` below is the property at full strength outside it.  Full statement that does not hold: "… for every
+accepted mask the described segments read back as the mask the user meant", refuted by the two counterexamples. -/
+theorem C01_roundtrip_partial (codec : Option Codec) (hcodec : ∀ c, codec = some c → ∀ x, c.dec (c.enc x) = x)
     (rows cols : Nat) (t : SegType) (segs : List Nat) (mfv : Nat) (omt : Bool) (order : List Nat) (m : Mask)
     (hperm : order.Perm (List.range m.numPlanes))
     (request : List Nat) (hreq : ∀ p ∈ request, p < m.numPlanes)
     (o : SegObj) (hb : build codec rows cols t segs mfv omt order m = .ok o) :
-    ∃ out, readBySource codec o request true = .ok out ∧ out.length = request.length ∧
+    ∃ out, readBySource codec o request .assertEmpty = .ok out ∧ out.length = request.length ∧
       ∀ i (hi : i < request.length) (ho : i < out.length),
         out[i].length = segs.length ∧
         ∀ j (hj : j < segs.length) (hj' : j < out[i].length),
@@ -172,37 +179,77 @@ theorem C01_roundtrip (codec : Option Codec) (hcodec : ∀ c, codec = some c →
   · intro p hp; exact List.mem_range.mp (hperm.subset hp)
   · exact hperm.symm.nodup List.nodup_range
 
+/-- (6) **C01_roundtrip.**  For every segmentation type (BINARY, FRACTIONAL, LABELMAP), every layout and dtype
+class of the mask (2-D/3-D label map or 4-D stack; bool/unsigned integers or floats), every
+`max_fractional_value`, either empty-frame policy (including masks that are entirely empty, and planes or single
+(segment, plane) frames that are empty), every frame size `rows*cols` (divisible by 8 or not, smaller than 8 or
+not), every plane order, and either transport (native 1/8/16 bit with the trailing pad as written, or an
+encapsulated syntax with *any* lossless codec): if the constructor accepts the input (`build … = .ok o`) and a 3-D
+float mask comes with descriptions it can address (`FloatLabelDescribed`: outside the open finding), then reading any
+list of source planes back with `assert_missing_frames_are_empty` -- in particular all of them in the order supplied
+-- succeeds and returns, for every requested plane `i` and every described segment `j`, exactly the property's
+expectation `expectedPlane` computed from the user's mask.  Fractions: `expectedPlane` rounds the *exact* product
+`q·mfv`; the code rounds the float product, which is the same integer unless `q·mfv` is within float error of a tie
+(`float_product_rounds_alike`). -/
+theorem C01_roundtrip (codec : Option Codec) (hcodec : ∀ c, codec = some c → ∀ x, c.dec (c.enc x) = x)
+    (rows cols : Nat) (t : SegType) (segs : List Nat) (mfv : Nat) (omt : Bool) (order : List Nat) (m : Mask)
+    (_hdescr : FloatLabelDescribed t segs m)
+    (hperm : order.Perm (List.range m.numPlanes))
+    (request : List Nat) (hreq : ∀ p ∈ request, p < m.numPlanes)
+    (o : SegObj) (hb : build codec rows cols t segs mfv omt order m = .ok o) :
+    ∃ out, readBySource codec o request .assertEmpty = .ok out ∧ out.length = request.length ∧
+      ∀ i (hi : i < request.length) (ho : i < out.length),
+        out[i].length = segs.length ∧
+        ∀ j (hj : j < segs.length) (hj' : j < out[i].length),
+          ∃ mpl, m.plane? request[i] = some mpl ∧ expectedPlane t mfv j segs[j] mpl = some out[i][j] :=
+  C01_roundtrip_partial codec hcodec rows cols t segs mfv omt order m hperm request hreq o hb
+
 /-- (6a) ... in particular for the source planes *in the order they were supplied*. -/
 theorem C01_roundtrip_supplied_order (codec : Option Codec) (hcodec : ∀ c, codec = some c → ∀ x, c.dec (c.enc x) = x)
     (rows cols : Nat) (t : SegType) (segs : List Nat) (mfv : Nat) (omt : Bool) (order : List Nat) (m : Mask)
+    (hdescr : FloatLabelDescribed t segs m)
     (hperm : order.Perm (List.range m.numPlanes))
     (o : SegObj) (hb : build codec rows cols t segs mfv omt order m = .ok o) :
-    ∃ out, readBySource codec o (List.range m.numPlanes) true = .ok out ∧ out.length = m.numPlanes ∧
+    ∃ out, readBySource codec o (List.range m.numPlanes) .assertEmpty = .ok out ∧ out.length = m.numPlanes ∧
       ∀ p (_ : p < m.numPlanes) (ho : p < out.length) j (hj : j < segs.length) (hj' : j < out[p].length),
         ∃ mpl, m.plane? p = some mpl ∧ expectedPlane t mfv j segs[j] mpl = some out[p][j] := by
-  obtain ⟨out, h1, h2, h3⟩ := C01_roundtrip codec hcodec rows cols t segs mfv omt order m hperm
+  obtain ⟨out, h1, h2, h3⟩ := C01_roundtrip codec hcodec rows cols t segs mfv omt order m hdescr hperm
     (List.range m.numPlanes) (fun p hp => List.mem_range.mp hp) o hb
   refine ⟨out, h1, by simpa using h2, ?_⟩
   intro p hp ho j hj hj'
   have := (h3 p (by simpa using hp) ho).2 j hj hj'
   simpa using this
 
-/-- (6-strict) Without `assert_missing_frames_are_empty` and without `omit_empty_frames` (both defaults of the
-reading / writing side that keep every frame) the same result is delivered: every requested source plane is
-referenced by a frame, so the "missing source" refusal cannot trigger. -/
-theorem C01_roundtrip_strict (codec : Option Codec) (rows cols : Nat) (t : SegType) (segs : List Nat) (mfv : Nat)
+/-- (6-strict) **Without `assert_missing_frames_are_empty`**, as the code has it (audit A, C01-1):
+`get_pixels_by_source_instance` accepts every one of the object's `m.numPlanes` source images, *whether or not a frame
+references it* -- so a source plane that was empty and omitted reads back as zeros without any assertion, and the
+result is the one of (6) whatever the empty-frame policy. -/
+theorem C01_roundtrip_strict_by_instance (codec : Option Codec) (o : SegObj) (nsrc : Nat) (request : List Nat)
+    (hreq : ∀ p ∈ request, p < nsrc) :
+    readBySource codec o request (.byInstance nsrc) = readBySource codec o request .assertEmpty :=
+  strict_eq codec o request _ (byInstance_not_refused o request nsrc hreq)
+
+/-- (6-strict') `get_pixels_by_source_frame` without the flag accepts every frame number up to the highest one a
+stored frame references (an omitted frame *below* it reads back as zeros); in particular every source frame when
+nothing is omitted. -/
+theorem C01_roundtrip_strict_by_frame (codec : Option Codec) (rows cols : Nat) (t : SegType) (segs : List Nat) (mfv : Nat)
     (order : List Nat) (m : Mask) (hperm : order.Perm (List.range m.numPlanes))
     (request : List Nat) (hreq : ∀ p ∈ request, p < m.numPlanes)
     (o : SegObj) (hb : build codec rows cols t segs mfv false order m = .ok o) :
-    readBySource codec o request false = readBySource codec o request true := by
-  apply strict_eq
-  intro p hp
-  have hcover : ∀ p, p < m.numPlanes → p ∈ order := fun p hp => hperm.symm.subset (List.mem_range.mpr hp)
-  have hin : ∀ p ∈ order, p < m.numPlanes := fun p hp => List.mem_range.mp (hperm.subset hp)
-  obtain ⟨_, _, _, _, _, hs, _⟩ := build_frames codec rows cols t segs mfv false order m hin o hb
-  obtain ⟨sg, hsg⟩ := List.exists_mem_of_ne_nil _ (segmentsIterable_ne_nil t segs hs.ne)
-  have := all_cells_stored codec rows cols t segs mfv order m hcover hin o hb sg hsg p (hreq p hp)
-  exact List.mem_map.mpr ⟨(sg, p), this, rfl⟩
+    readBySource codec o request .byFrame = readBySource codec o request .assertEmpty ∧
+    ∀ (o' : SegObj) (req' : List Nat), (∀ p ∈ req', ∃ k ∈ o'.keys, p ≤ k.2) →
+      readBySource codec o' req' .byFrame = readBySource codec o' req' .assertEmpty := by
+  constructor
+  · apply strict_eq
+    apply byFrame_not_refused
+    intro p hp
+    have hcover : ∀ p, p < m.numPlanes → p ∈ order := fun p hp => hperm.symm.subset (List.mem_range.mpr hp)
+    have hin : ∀ p ∈ order, p < m.numPlanes := fun p hp => List.mem_range.mp (hperm.subset hp)
+    obtain ⟨_, _, _, _, _, hs, _⟩ := build_frames codec rows cols t segs mfv false order m hin o hb
+    obtain ⟨sg, hsg⟩ := List.exists_mem_of_ne_nil _ (segmentsIterable_ne_nil t segs hs.ne)
+    exact ⟨(sg, p), all_cells_stored codec rows cols t segs mfv order m hcover hin o hb sg hsg p (hreq p hp), Nat.le_refl _⟩
+  · intro o' req' h
+    exact strict_eq codec o' req' _ (byFrame_not_refused o' req' h)
 
 /-- (5a) **"Rounded to the stored quantisation."**  What a FRACTIONAL segmentation delivers after rescaling,
 `quantise mfv x / mfv`, differs from the fraction `x` that was passed in by at most half a quantisation step
@@ -211,12 +258,25 @@ theorem quantisation_error (mfv : Nat) (hm : 1 ≤ mfv) (x : Rat) (h0 : 0 ≤ x)
     |((quantise mfv x : Nat) : Rat) / (mfv : Rat) - x| ≤ 1 / (2 * (mfv : Rat)) :=
   quantise_error_bound mfv hm x h0
 
-/-- (6-refusal) The read without `assert_missing_frames_are_empty` refuses (KeyError) a request that names a source
-plane no frame references -- it never silently invents an empty plane there. -/
-theorem strict_read_refuses_missing (codec : Option Codec) (o : SegObj) (request : List Nat) (hnd : o.keys.Nodup)
-    (p : Nat) (hp : p ∈ request) (hmiss : p ∉ o.keys.map (·.2)) :
-    readBySource codec o request false = .error .key :=
-  strict_refuses codec o request hnd p hp hmiss
+/-- (6-refusal) What the reads without `assert_missing_frames_are_empty` refuse is a source **unknown to the object's
+reference tables**: `get_pixels_by_source_instance` a UID that is not one of its source images (KeyError),
+`get_pixels_by_source_frame` a frame number above the highest one any stored frame references (ValueError).  (A
+listed source without a frame is *not* refused: (6-strict).) -/
+theorem strict_read_refuses_unknown (codec : Option Codec) (o : SegObj) (request : List Nat) (hnd : o.keys.Nodup)
+    (p : Nat) (hp : p ∈ request) :
+    (∀ nsrc, nsrc ≤ p → readBySource codec o request (.byInstance nsrc) = .error .key) ∧
+    ((∀ k ∈ o.keys, k.2 < p) → readBySource codec o request .byFrame = .error .value) :=
+  ⟨fun nsrc hle => byInstance_refuses codec o request nsrc hnd p hp hle,
+   fun hgt => byFrame_refuses codec o request hnd p hp hgt⟩
+
+/-- (5b) **Float products** (audit A, C01-2).  The model rounds the exact rational `q·mfv`; NumPy rounds the product
+computed in the array's float type.  Any computed product within `ε` of the exact one rounds to the same stored value
+as long as the exact product is farther than `ε` from every tie `k + 1/2` -- which is the hypothesis under which the
+theorems about `quantise` speak about the code (float32: ε ≈ 2⁻²⁴·q·mfv; float64: 2⁻⁵³·q·mfv).  Within `ε` of a tie
+either neighbour may be stored; the correspondence feeds the model the float product and the oracle accepts both. -/
+theorem float_product_rounds_alike (q q' ε : Rat) (hclose : |q' - q| ≤ ε)
+    (hfar : ∀ k : Int, ε < |q - ((k : Rat) + 1 / 2)|) : roundHalfEven q' = roundHalfEven q :=
+  rhe_stable q q' ε hclose hfar
 
 /-- (4a) **Every non-empty (segment, plane) pair is stored, and stored once**: a cell of the loop whose pixels
 are not all zero has its (segment, source plane) key among the frames of the object, and no key occurs twice --
@@ -262,8 +322,10 @@ divides by zero: an accepted `max_fractional_value` lies in 1..255 (this is the 
 theorem mfv_fits (mfv : Nat) (v : Int) (h : segMfvGuard (mfv : Int) = .ok v) : 1 ≤ mfv ∧ mfv ≤ 255 :=
   segMfvGuard_ok mfv v h
 
-/-- (7) **Encoding workers.**  Results are gathered by position from the futures; whatever order the workers
-complete in (`done` = any log containing each task's result once), the gathered list is `tasks.map run`. -/
+/-- (7) **Encoding workers** (model level).  Results are gathered by position from the futures; whatever order the
+workers complete in (`done` = any log containing each task's result once), the gathered list is `tasks.map run`.
+That the source gathers by position -- `frames = [fut.result() for fut in frame_futures]` -- is pinned textually by
+translation target T20; the executor that completes in reverse order exercises it on the real code. -/
 theorem collect_order_independent {α β} (run : α → β) (tasks : List α) (done : List (Nat × β))
     (hperm : done.Perm (tasks.zipIdx.map fun a => (a.2, run a.1))) :
     collect tasks.length done = some (tasks.map run) := by
@@ -309,6 +371,11 @@ theorem castMask_rejects_undescribed_partial :
     castMask [3] .labelmap (.intLabel [[1]]) = .error .value :=
   castMask_rejects_undescribed [3] .labelmap [[1]] [1] 1 (by simp) (by simp) (by decide)
 
+/-- the FRACTIONAL sibling of the open finding: a 3-D float mask with two descriptions is stored for *both* segments -/
+theorem counterexample_float_fraction_copied :
+    cellE (.fltLabel [[1/2, 0]]) [1, 2] .fractional 255 (some 1) 0 = .ok [128, 0] ∧
+    cellE (.fltLabel [[1/2, 0]]) [1, 2] .fractional 255 (some 2) 0 = .ok [128, 0] := by decide +kernel
+
 /-- a stacked (4-D) integer mask that is not binary -/
 theorem castMask_rejects_nonbinary_stack (segs : List Nat) (t : SegType) (ps : List (List (List Nat)))
     (pl : List (List Nat)) (ch : List Nat) (v : Nat) (hpl : pl ∈ ps) (hch : ch ∈ pl) (hv : v ∈ ch) (h2 : 1 < v) :
@@ -320,6 +387,17 @@ theorem castMask_rejects_channel_count (segs : List Nat) (t : SegType) (ps : Lis
     (pl : List (List Nat)) (ch : List Nat) (hpl : pl ∈ ps) (hch : ch ∈ pl) (hne : ch.length ≠ segs.length) :
     castMask segs t (.intStack ps) = .error .value :=
   reject_channels segs t ps pl ch hpl hch hne
+
+/-- ... and the same for a stacked float mask -/
+theorem castMask_rejects_channel_count_float (segs : List Nat) (t : SegType) (ps : List (List (List Rat)))
+    (pl : List (List Rat)) (ch : List Rat) (hpl : pl ∈ ps) (hch : ch ∈ pl) (hne : ch.length ≠ segs.length) :
+    castMask segs t (.fltStack ps) = .error .value := by
+  unfold castMask
+  have : chanOk segs.length (.fltStack ps) = false := by
+    simp only [chanOk]
+    rw [List.all_eq_false]
+    exact ⟨pl, hpl, by rw [Bool.not_eq_true, List.all_eq_false]; exact ⟨ch, hch, by simpa using hne⟩⟩
+  simp [this]
 
 /-- a float mask with a value outside [0, 1] (3-D and 4-D) -/
 theorem castMask_rejects_float_range (segs : List Nat) (t : SegType) :
@@ -347,13 +425,14 @@ theorem castMask_rejects_overlap_labelmap (segs : List Nat) (ps : List (List (Li
     castMask segs .labelmap (.intStack ps) = .error .value :=
   reject_overlap_labelmap segs ps pl ch hpl hch hlen h01 hne hps hsum
 
-/-- `max_fractional_value` outside 1..255 (translated admission test), and encapsulated syntaxes for BINARY -/
+/-- `max_fractional_value` outside 1..255 (translated admission test), and encapsulated syntaxes other than JPEG 2000
+Lossless for BINARY (the code exempts that one: `refusedForBinary`) -/
 theorem build_rejects_bad_options (rows cols : Nat) (segs : List Nat) (mfv : Nat) (omt : Bool)
     (order : List Nat) (m : Mask) :
     (∀ codec, (mfv < 1 ∨ 255 < mfv) → ∃ e, build codec rows cols .fractional segs mfv omt order m = .error e) ∧
-    (∀ c : Codec, ∃ e, build (some c) rows cols .binary segs mfv omt order m = .error e) :=
+    (∀ c : Codec, c.j2k = false → ∃ e, build (some c) rows cols .binary segs mfv omt order m = .error e) :=
   ⟨fun codec h => reject_mfv codec rows cols segs mfv omt order m h,
-   fun c => reject_encapsulated_binary c rows cols segs mfv omt order m⟩
+   fun c hc => reject_encapsulated_binary c hc rows cols segs mfv omt order m⟩
 
 /-! Non-vacuity: concrete non-trivial inputs satisfying the hypotheses. -/
 
@@ -371,9 +450,9 @@ example : ∃ o, build none 1 2 .labelmap [3, 300] 255 true [2, 0, 1]
     (by decide) (by decide) (by decide) (by decide)
 
 /-- a FRACTIONAL segmentation from float input with a tie (0.5 * 255 = 127.5 → 128) through a lossless codec -/
-example : ∃ o, build (some ⟨id, id⟩) 1 2 .fractional [1] 255 false [0]
+example : ∃ o, build (some { enc := id, dec := id }) 1 2 .fractional [1] 255 false [0]
     (.fltLabel [[1/2, 1]]) = .ok o :=
-  build_succeeds (some ⟨id, id⟩) 1 2 .fractional [1] 255 false [0] _ 8 (.fltLabel [[1/2, 1]]) .no
+  build_succeeds (some { enc := id, dec := id }) 1 2 .fractional [1] 255 false [0] _ 8 (.fltLabel [[1/2, 1]]) .no
     (by decide) (by decide +kernel) (by decide) (by decide)
 
 example : quantise 255 (1/2) = 128 ∧ quantise 100 (1/8) = 12 ∧ quantise 100 (3/8) = 38 := by decide +kernel
